@@ -99,6 +99,8 @@ def run(ctx):
             case, im, spec = min(unlisted, key=lambda t: (len(t[0]), t[0]))
             ctx.violation({"kind": "the failure report of Vm::parse is not sound for the grammar as written: its position is not the furthest position of a reportable attempt of the reference semantics, or it lists a rule that did not fail (resp. match under negation) there",
                            "features": fs, "case": case, "impl": im, "position_and_all_attempts_there": spec, "failing_inputs_in_run": len(unlisted)})
+    # leg 3: the parser pest_generator emits reports the same failure as the VM (whose report is leg 1's subject)
+    _, gen_stats = generated_leg(ctx, lambda g, v: g.startswith("err") and v.startswith("err"))
     # merge the second leg's numbers into the evidence file written by leg 1
     ev_path = os.path.join(EVIDENCE, f"{ctx.prop}.json")
     ev = json.load(open(ev_path))
@@ -106,6 +108,7 @@ def run(ctx):
     ev["known_findings_hit"] = sorted(ctx.known_hits.keys())
     ev["wall_s"] = round(time.time() - ctx.t0, 2)
     ev["coverage"]["distribution"]["specification_on_optimized_rules"] = so_stats
+    ev["coverage"]["distribution"]["generated_parser_reports"] = gen_stats
     for fs in ("default", "extras"):
         try:
             st = json.load(open(os.path.join(ctx.rundir, "spec-" + fs, "stats.json")))
@@ -119,5 +122,5 @@ def run(ctx):
 
 def replay(ctx, path):
     r = json.load(open(path))
-    drv = SEM if r.get("case", "").startswith("S ") else DRV
+    drv = "drv_gen" if r.get("leg") == "generated" else SEM if r.get("case", "").startswith("S ") else DRV
     return replay_generic(ctx, path, drv, MODE, featureset=("extras" if r.get("features") == "extras" else "default"))
